@@ -51,7 +51,14 @@ type stubLedger struct {
 	state stateFn
 	// observation: the block heights snapshots were created at while a check ran
 	snapsAt []int64
+	// fault injection for the duration of one check: the failGet-th Get of a snapshot reader / the failSnap-th
+	// CreateSnapshot answers with an error (0: none); gets / snaps count, fired tells whether the fault was reached
+	failGet, failSnap int
+	gets, snaps       int
+	fired             bool
 }
+
+var errInjected = errors.New("injected: query tx fail")
 
 func newStubLedger(st stateFn) *stubLedger {
 	return &stubLedger{byID: map[string]*blk{}, state: st}
@@ -84,6 +91,11 @@ func (l *stubLedger) CreateSnapshot(id []byte) (ledger.XMReader, error) {
 	if !ok {
 		return nil, errNotFound
 	}
+	l.snaps++
+	if l.snaps == l.failSnap {
+		l.fired = true
+		return nil, errInjected
+	}
 	l.snapsAt = append(l.snapsAt, b.height)
 	return snapReader{l, b.height}, nil
 }
@@ -104,6 +116,11 @@ type snapReader struct {
 }
 
 func (r snapReader) Get(bucket string, key []byte) (*ledger.VersionedData, error) {
+	r.l.gets++
+	if r.l.gets == r.l.failGet {
+		r.l.fired = true
+		return nil, errInjected
+	}
 	v, ok := r.l.state(r.h, bucket, string(key))
 	if !ok {
 		return nil, nil
